@@ -551,6 +551,10 @@ func storageAlphabet() []func(r *storageRun) {
 	}
 }
 
+func init() {
+	register("storage", func(a Args) { cmdStorage(a.Prop, a.Seed, a.N, a.Depth, a.Out) })
+}
+
 func cmdStorage(prop string, seed uint64, n int, depth int, out string) {
 	tr := NewTrace(out + "/trace.txt")
 	rep := NewReport(prop, seed)
